@@ -320,7 +320,8 @@ def check_c10(tier):
 def check_c04(tier):
     return check_geom("C04", "c04", tier, 2500, 30000,
                       ["q_1_8", "q_9_20", "q_21_30", "method_mesh_edgebreaker", "method_mesh_sequential",
-                       "method_pc_sequential", "method_pc_kdtree", "att_explicit_quantization_used"])
+                       "method_pc_sequential", "method_pc_kdtree", "att_explicit_quantization_used",
+                       "transform_q_1_8", "transform_q_9_24", "transform_q_25_30", "transform_explicit_box"])
 
 
 def check_c07(tier):
